@@ -252,3 +252,32 @@ def run(ctx):
     from common import cleanup_mark_findings
     for key, ok, good, bad in cleanup_mark_findings(F):
         r6.check(ok, key, good, bad + " (the next client runs under the previous client's search_path / role / statement_timeout)")
+
+    # ---------------- R7 startup parameters are taken as the client sent them (D45)
+    r7 = ctx.rule("C12-R7", "the values a client establishes at startup are the bytes it sent: messages::parse_params turns the packet's C strings into text with a UTF-8 decoder (not one character per byte, "
+                  "which reads UTF-8 as Latin-1 and hands the server a double-encoded value), and drops an empty string only where a name is expected (the list terminator) - an empty value keeps its place", floor=2)
+    pp = ctx.body("pgcat::messages::parse_params", r7)
+    if pp:
+        casts = [(b_, st["span"]) for b_, i, st in pp.assigns() if st["rv"]["k"] == "cast" and st["rv"].get("ty") == "char"]
+        dec = pp.calls("re:^alloc::string::String::from_utf8(_lossy)?$|^core::str::converts::from_utf8$|^alloc::str::<impl str>::to_owned$")
+        utf8 = [c for c in dec if re.search(r"from_utf8", c.name)]
+        r7.check(not casts and bool(utf8), "startup-bytes-decoded-as-utf8", "the C strings of the startup packet are decoded with %s" % sorted({c.name.split("::")[-1] for c in utf8}),
+                 "parse_params builds the strings one `u8 as char` at a time (%s): a non-ASCII application_name / user / database is remembered as mojibake, SET on the server and told back to the client that way" % [sp for _, sp in casts] if casts else "parse_params has no UTF-8 decoding of the packet's strings")
+        # the empty-token test
+        psw = switches(pp)
+        emp = list(bool_value_edges(pp, lambda o: o.kind == "call" and o.call.name.endswith("::is_empty"), psw))
+        ok_e = True
+        why_e = "no is_empty() test: nothing is dropped"
+        pushes = [c.block for c in pp.calls("re:^alloc::vec::Vec.*::push$")]
+        for sw_, o_, te, fe in emp:
+            # from the `empty` edge, skipping the push of the token must be decided by the token's position as well
+            rems = [b_ for b_, i, st in pp.assigns() if st["rv"]["k"] == "bin" and st["rv"].get("op") == "Rem"]
+            region = pp.reach([te[1]], avoid_blocks=pushes)
+            dominated = [b_ for b_ in rems if pp.dominates(te[1], b_)]
+            skips = any(h_ in region for h_ in loop_headers(pp)) or any(pp.blocks[b_]["term"]["k"] == "return" for b_ in region)
+            if skips and not dominated:
+                ok_e = False
+                why_e = "an empty string is skipped wherever it stands (%s)" % pp.blocks[sw_.block]["term"].get("span", "")
+            elif skips:
+                why_e = "an empty string is skipped only depending on its position (name slot)"
+        r7.check(ok_e, "empty-value-keeps-its-place", why_e, "%s: `options=''` (or any empty value) shifts the pairing of every parameter after it - the startup is refused or the names and values are mixed up" % why_e)
